@@ -121,6 +121,15 @@ func TestVerifC23(t *testing.T) {
 			// a space terminal declared again without (space): the diagnostic has no attribute node to
 			// point at and must still carry a range inside the document (seeded change C23-r11m2)
 			strings.Replace(g, "sp: /[ ]+/ (space)\n", "sp: /[ ]+/ (space)\nsp: /[\\t]+/\n", 1),
+			// documents as a client sends them while a semantic action is being typed: the text ends
+			// inside the code block, at the places the hand-written block scanner looks one character
+			// ahead (seeded change C23-r14m2: index out of range on a text ending in "{ /")
+			g + "Extra: id { /",
+			g + "Extra: id { // x",
+			g + "Extra: id { /* x *",
+			g + "Extra: id { '",
+			g + "Extra: id { \"a\\",
+			g + "Extra: id {",
 		}
 	}
 	checkDiag := func(ck *vCheck, desc, content string, p *lsp.PublishDiagnosticsParams) {
